@@ -107,11 +107,35 @@ def parse_content_disposition(
     def unescape(text: str, *, chars: str = "".join(map(re.escape, CHAR))) -> str:
         return re.sub(f"\\\\([{chars}])", "\\1", text)
 
+    def split_params(text: str) -> list[str]:
+        # Split on ";" outside of quoted strings only: a quoted value may hold
+        # any number of semicolons and quoted-pairs (\\" does not end it).
+        items: list[str] = []
+        cur: list[str] = []
+        quoted = escaped = False
+        for ch in text:
+            if quoted:
+                if escaped:
+                    escaped = False
+                elif ch == "\\":
+                    escaped = True
+                elif ch == '"':
+                    quoted = False
+            elif ch == ";":
+                items.append("".join(cur))
+                cur = []
+                continue
+            elif ch == '"' and "".join(cur).rstrip().endswith("="):
+                quoted = True
+            cur.append(ch)
+        items.append("".join(cur))
+        return items
+
     if not header:
         return None, {}
 
     # https://www.rfc-editor.org/info/rfc9110/#section-5.6.6-2
-    disptype, *parts = header.split(";")
+    disptype, *parts = split_params(header)
     disptype = disptype.strip()
     if not is_token(disptype):
         warnings.warn(BadContentDispositionHeader(header))
